@@ -45,6 +45,9 @@ type C16Case struct {
 	Overlap  bool `json:"overlap"` // B's selector equals A's
 	HasB     bool `json:"has_b"`
 	HasEmpty bool `json:"has_empty"` // a set with an empty selector is cached
+	// ExprA / ExprB: the selector of set A / B is written with matchExpressions only (app In [..]) - same meaning
+	ExprA bool `json:"expr_a,omitempty"`
+	ExprB bool `json:"expr_b,omitempty"`
 	Events   []Ev `json:"events"`
 }
 
@@ -61,7 +64,8 @@ func genEvPod(rt *rapid.T, label string) EvPod {
 }
 
 func genC16(rt *rapid.T) C16Case {
-	c := C16Case{Overlap: rapid.Bool().Draw(rt, "overlap"), HasB: rapid.IntRange(0, 3).Draw(rt, "hasB") != 0, HasEmpty: rapid.Bool().Draw(rt, "hasEmpty")}
+	c := C16Case{Overlap: rapid.Bool().Draw(rt, "overlap"), HasB: rapid.IntRange(0, 3).Draw(rt, "hasB") != 0, HasEmpty: rapid.Bool().Draw(rt, "hasEmpty"),
+		ExprA: rapid.IntRange(0, 3).Draw(rt, "exprA") == 0, ExprB: rapid.IntRange(0, 3).Draw(rt, "exprB") == 0}
 	n := rapid.IntRange(1, 20).Draw(rt, "nevents")
 	for i := 0; i < n; i++ {
 		e := Ev{Kind: rapid.SampledFrom([]int{0, 0, 1, 1, 1, 1, 2, 2, 3, 4, 5, 6, 6, 7, 8, 9}).Draw(rt, "evKind")}
@@ -290,6 +294,19 @@ func runC16(rep Rep, cs C16Case) {
 			b.Spec.Selector = &metav1.LabelSelector{MatchLabels: map[string]string{"app": "other"}}
 		}
 		w.sets = append(w.sets, b)
+	}
+	asExpr := func(s *asv1.StatefulSet) {
+		var reqs []metav1.LabelSelectorRequirement
+		for k, v := range s.Spec.Selector.MatchLabels {
+			reqs = append(reqs, metav1.LabelSelectorRequirement{Key: k, Operator: metav1.LabelSelectorOpIn, Values: []string{v}})
+		}
+		s.Spec.Selector = &metav1.LabelSelector{MatchExpressions: reqs}
+	}
+	if cs.ExprA {
+		asExpr(a)
+	}
+	if cs.ExprB && len(w.sets) > 1 {
+		asExpr(w.sets[1])
 	}
 	if cs.HasEmpty {
 		e := baseSet(NS, "empty-selector", 1)
